@@ -104,26 +104,18 @@ pub fn honest_state<TC: Configuration>(pmode: u8, e: u64, abstract_hashes: bool)
         }
         v += 1;
     }
-    let fh: [u16; NMAX] = kani::any();
-    let sh: [u16; NMAX] = kani::any();
-    let pv: u64 = kani::any();
-    let pep: u64 = kani::any();
-    if pmode != 0 {
+    // draw the perturbation only when it is used: Kani's concrete playback omits values of
+    // kani::any() calls that do not influence the trace, which would shift every later value
+    let (pv, pep) = if pmode != 0 {
+        let pv: u64 = kani::any();
+        let pep: u64 = kani::any();
         kani::assume(pv >= 1 && pv < n && pep <= e && pep != ep[pv as usize]);
-    }
-    let use_abstract = cfg!(kani) && abstract_hashes;
-    if use_abstract {
-        // distinct leaves have distinct hashes (fresh leaves: distinct commitments or epochs are
-        // not guaranteed, but their labels differ; only the fresh hashes are compared by name)
-        let mut i = 0;
-        while i < NMAX {
-            kani::assume(fh[i] >= crate::model::RAW0 && fh[i] < crate::model::RAW0 + 0x100 && sh[i] >= crate::model::RAW0 && sh[i] < crate::model::RAW0 + 0x100);
-            i += 1;
-        }
-        dirmodel::install_abstract(n, val, nonce, ep, fh, sh, pmode, pv, pep);
+        (pv, pep)
     } else {
-        dirmodel::install::<TC>(n, val, nonce, ep, pmode, pv, pep);
-    }
+        (0, 0)
+    };
+    let _ = abstract_hashes;
+    dirmodel::install::<TC>(n, val, nonce, ep, pmode, pv, pep);
     (n, val, ep)
 }
 
